@@ -32,7 +32,6 @@ import (
 	"github.com/prometheus/alertmanager/silence/silencepb"
 	"github.com/prometheus/alertmanager/timeinterval"
 
-	"verifharness/sim"
 	"verifharness/vh"
 )
 
@@ -91,7 +90,7 @@ func genSysCase(r *vh.Rand) Case {
 				active = append(active, owners[j])
 			}
 		}
-		in := SysIn{}
+		in := SysIn{NullRecv: r.Chance(1, 4)}
 		if subMinute {
 			// sub-minute schedule: one long-lived pipeline asked again within less than a minute
 			in.GI = vh.Pick(r, []int64{30, 30, 60, 90})
@@ -315,6 +314,7 @@ type SysIn struct {
 	K     int   `json:"flushes"`           // flushes observed per group
 	D     int64 `json:"second_group_delay_s"` // > 0: a second alert (second group of the same route) is submitted D s later
 	Sil   *SilIn `json:"silence,omitempty"`
+	NullRecv bool `json:"null_receiver,omitempty"` // the route's receiver has no integration
 }
 
 // SilIn: one silence covering EVERY alert of the group(s) of the route, created right after the (From-1)-th
@@ -442,9 +442,8 @@ func (rn *runner) sys(c *Case) {
 		}
 		sleepUntil(in.Start)
 		// ONE instance (one Intervener, one pipeline, one dispatcher) for the whole sequence of flushes
-		s := sim.New(t, sim.Options{ConfigYAML: c.YAML,
-			Ints:      map[string][]sim.IntSpec{"team": {{Name: "webhook", SendResolved: true}}, "default": {{Name: "webhook", SendResolved: true}}},
-			Retention: time.Hour})
+		// receiver "team" has one scripted webhook, or (NullRecv) no integration at all: the usual null receiver
+		s := newMini(t, c.YAML, map[string]bool{"team": !in.NullRecv, "default": true})
 		defer s.Stop()
 		for _, mt := range s.Conf.MuteTimeIntervals {
 			conf.tis = append(conf.tis, configTI{mt.Name, mt.TimeIntervals})
@@ -472,7 +471,7 @@ func (rn *runner) sys(c *Case) {
 		})
 		put := func(g int) {
 			now := time.Now()
-			s.PutAlert(&alert.Alert{Alert: model.Alert{Labels: model.LabelSet{"alertname": model.LabelValue(sysAlertNames[g]), "team": "x"},
+			s.PutAlert(t, &alert.Alert{Alert: model.Alert{Labels: model.LabelSet{"alertname": model.LabelValue(sysAlertNames[g]), "team": "x"},
 				StartsAt: now, EndsAt: now.Add(time.Duration(in.GI*int64(in.K+4))*time.Second + 240*time.Hour)}, UpdatedAt: now})
 		}
 		put(0)
@@ -596,7 +595,7 @@ func (rn *runner) sys(c *Case) {
 			rn.run.Violate("group-missing-from-api", "the alert's group is not listed by dispatcher.Groups", c)
 		}
 		flushes = append(flushes, vh.App("mkFlush", vh.Nat(f.gid), vh.Z(f.now.Unix()), coqTzTableTI(conf.tis, f.now.Unix()),
-			vh.Bool(f.silenced), vh.Bool(f.notified), vh.ListOf(f.by, vh.Str), vh.Bool(f.isMuted),
+			vh.Bool(f.silenced), vh.Bool(!in.NullRecv), vh.Bool(f.notified), vh.ListOf(f.by, vh.Str), vh.Bool(f.isMuted),
 			vh.ListOf(f.api, func(g apiGroup) string { return vh.Pair(vh.Nat(g.gid), vh.ListOf(g.by, vh.Str)) }),
 			vh.ListOf(f.apiUnmuted, vh.Nat)))
 		if f.notified {
@@ -662,7 +661,7 @@ func (rn *runner) sys(c *Case) {
 			}
 		}
 		prevWant[f.gid] = wantBy
-		if f.notified != (!blockedActive && !blockedMute && !f.silenced) {
+		if f.notified != (!blockedActive && !blockedMute && !f.silenced && !in.NullRecv) {
 			key := "gating-notified-while-muted"
 			if !blockedActive && !blockedMute {
 				key = "gating-dropped-while-not-muted"
@@ -685,6 +684,7 @@ func (rn *runner) sys(c *Case) {
 		"[\n  "+strings.Join(flushes, ";\n  ")+"]")
 	rn.run.Add(term, c, len(conf.mute)+len(conf.active) > 0 && nPass > 0 && nBlock > 0)
 	rn.run.Count("sys_cases", fmt.Sprintf("groups:%d gi:%ds both-outcomes:%v", in.groups(), in.GI, nPass > 0 && nBlock > 0))
+	rn.run.Count("sys_cases", fmt.Sprintf("receiver without integration:%v", in.NullRecv))
 	rn.run.Count("sys_cases", fmt.Sprintf("route depth:%d leaf has own lists:%v", sysDepth, len(conf.mute)+len(conf.active) > 0))
 	if in.groups() == 2 {
 		rn.run.Count("sys_cases", fmt.Sprintf("two groups seen by the API in opposite muted states:%v", opposite))
